@@ -9,6 +9,8 @@ void base_knobs(Rng &r, Plan &p, bool timing_sensitive) {
   static const int caps[] = {512, 1024, 4096, 65536};
   int cap = caps[r.below(4)]; int pbuf = r.chance(0.5) ? 512 : 4096; if (pbuf > cap) pbuf = cap;
   p.knobs.set("pipe_cap", cap).set("pipe_buf", pbuf).set("ino_policy", (int)r.below(3));
+  // file systems with 64-bit inode numbers: message numbers at and beyond 2^32 (a generator of its own, so that the other draws stay put)
+  { Rng ri(mix64(p.seed, 0x1B0)); if (ri.chance(0.15)) p.knobs.set("ino_base", (long long)ri.pick(std::vector<int64_t>{4294967296LL - 20, 4294967296LL, 4294967296LL + 5, 8589934592LL + 1000, 1099511627776LL + 7, 1000000000000LL})); }
   static const double sticks[] = {0.0, 0.3, 0.7, 0.9, 0.98};
   p.knobs.set("stick", sticks[r.below(5)]);
   static const double splits[] = {0.0, 0.2, 0.6};
@@ -246,6 +248,7 @@ static bool gen_c01(uint64_t seed, const std::string &tier, uint64_t i, Plan &p)
     c01_input(seed, j, true, inj, desc);
     // fixed, simple environment for the sweep: the schedule is not the subject here
     p.knobs.set("stick", 1.0).set("split_p", (j % 2) ? 0.5 : 0.0).set("ino_policy", (int)(j % 3)).set("dir_shuffle_p", 0.0);
+    if (j % 5 == 4) p.knobs.set("ino_base", (long long)(4294967296LL - 2 + (int64_t)(j % 7) * 1000003LL));   // message numbers around and beyond 2^32
     bool daemon = (j % 3) == 0;
     if (daemon) p.ops.push(Json::obj().set("op", "boot")), p.ops.push(Json::obj().set("op", "settle").set("max_s", 5));
     inj.set("wait", true);
@@ -351,7 +354,10 @@ static bool gen_c02(uint64_t seed, const std::string &tier, uint64_t i, Plan &p)
     if (inj.gets("env_raw") == mk_env(inj.gets("sender"), {}) || r.chance(0.7)) { inj.set("rcpts", rc); inj.set("env_raw", mk_env(inj.gets("sender"), rs)); }
     p.ops.push(inj); nap();
   }
-  if (r.chance(0.25)) { nap(); p.ops.push(Json::obj().set("op", "second_send")); }
+  if (r.chance(0.25)) { nap(); p.ops.push(Json::obj().set("op", "second_send"));
+    // the lock call of the second instance itself fails (no locks left, an interrupted call, a file system without flock):
+    // whatever the reason, without the lock it must not start
+    if (r.chance(0.5)) { Fault f; f.actor = "tag:second"; f.call = C_FLOCK; f.nth = 1; f.kind = "error"; f.err = r.pick(std::vector<int>{ENOLCK, ENOLCK, EINTR, EIO, EBADF, EINVAL, ENOMEM}); p.faults.push_back(f); } }
   // disturbances: crashes of anyone at any yield point, stalls of injectors across the collection horizon
   int nd = (int)r.below(4);
   for (int q = 0; q < nd; q++) {
